@@ -323,25 +323,33 @@ def machine(tier, rec, ctl):
         def init(self, data):
             self.do({"op": "init", "model": gen_model(data.draw)})
 
-        @precondition(lambda self: self.alive() and self.world is not None)
+        @precondition(lambda self: self.dead or (self.world is not None))
         @rule(data=st.data())
         def assign_positional(self, data):
+            if self.dead:
+                return
             self.do(gen_assign_positional(data.draw, self.world.m))
 
-        @precondition(lambda self: self.alive() and self.world is not None)
+        @precondition(lambda self: self.dead or (self.world is not None))
         @rule(data=st.data())
         def assign_named(self, data):
+            if self.dead:
+                return
             self.do(gen_assign_named(data.draw, self.world.m))
 
-        @precondition(lambda self: self.alive() and self.world is not None)
+        @precondition(lambda self: self.dead or (self.world is not None))
         @rule(data=st.data())
         def assign_partial(self, data):
             """Also as the very first assignment: a partial dict is accepted then too (the rest stays at its default)."""
+            if self.dead:
+                return
             self.do(gen_assign_partial(data.draw, self.world.m))
 
-        @precondition(lambda self: self.alive() and self.world is not None)
+        @precondition(lambda self: self.dead or (self.world is not None))
         @rule(data=st.data())
         def bad_input(self, data):
+            if self.dead:
+                return
             self.do(gen_bad(data.draw, self.world.m))
 
     C09Machine.rec = rec
